@@ -443,6 +443,12 @@ pub fn register_base(owner: &SecretKey, meta: u64) -> SignedRegister {
     let sig = owner.sign(reg.bytes().expect("reg bytes"));
     SignedRegister::new(reg, sig, BTreeSet::new())
 }
+/// same owner and label (hence the same address) but owner-signed permissions that let anyone write
+pub fn register_base_alt(owner: &SecretKey, meta: u64) -> SignedRegister {
+    let reg = Register::new(owner.public_key(), XorName::from_content(format!("reg meta {meta}").as_bytes()), Permissions::new_anyone_can_write());
+    let sig = owner.sign(reg.bytes().expect("reg bytes"));
+    SignedRegister::new(reg, sig, BTreeSet::new())
+}
 pub fn register_op(base: &SignedRegister, signer: &SecretKey, id: u64) -> RegisterOp {
     let mut crdt = RegisterCrdt::new(*base.address());
     let (_h, addr, node) = crdt.write(format!("entry {id}").into_bytes(), &BTreeSet::new()).expect("write");
